@@ -228,7 +228,14 @@ let run (toks : string list) (cout : string list) : string =
                  fail "%s: slot %d got a defining polynomial that does not divide the old one: %s to %s" what i b.tok a.tok
              | _ -> ())
           end) after in
-    let hashes : (string * int * rnum * string) list ref = ref [] in
+    (* lp_value_hash_approx is a function of the NUMBER and the precision: whenever it is taken again - of the same slot
+       before / after a collapsing query, of a copy, of an untouched copy, of the equal d: / q: / z: value - it must agree *)
+    let hashes : (int * rnum * string * string) list ref = ref [] in
+    let check_hash (who : string) (p : int) (x : rnum) (h : string) =
+      match List.find_opt (fun (p', y, _, _) -> p' = p && sg (some (rn_cmp fuel y x)) = 0) !hashes with
+      | Some (_, _, h0, who0) ->
+        if h0 <> h then fail "%s: hash_approx(%d) is %s, but it was %s for the same number (%s)" who p h h0 who0
+      | None -> hashes := (p, x, h, who) :: !hashes in
     let roots_seen : (int * int list * rnum list) list ref = ref [] in
     let evals_seen : (int * int list * rnum) list ref = ref [] in
     (* ---- init *)
@@ -240,6 +247,9 @@ let run (toks : string list) (cout : string list) : string =
     let check_untouched what =
       Array.iteri (fun i (sl : slot) ->
           let fo = next () in let co = next () in
+          let h0 = next () in let h6 = next () in
+          check_hash (what ^ ": untouched copy of starting slot " ^ string_of_int i) 0 sl.x h0;
+          check_hash (what ^ ": untouched copy of starting slot " ^ string_of_int i) 6 sl.x h6;
           let fe = rfloor sl and ce = string_of_z (some (rn_ceiling fuel sl.x)) in
           if fo <> fe then fail "%s: floor of the untouched copy of starting slot %d is %s, reference %s" what i fo fe;
           if co <> ce then fail "%s: ceiling of the untouched copy of starting slot %d is %s, reference %s" what i co ce) start_pool in
@@ -353,10 +363,7 @@ let run (toks : string list) (cout : string list) : string =
             | None -> ())
          | ["ha"; _; prec] ->
            let i = slot 1 in let o = next () in
-           let kc = kind_class before.(i).kind and p = int_of_string prec in
-           (match List.find_opt (fun (k, p', x, _) -> k = kc && p' = p && sg (some (rn_cmp fuel x pool.(i).x)) = 0) !hashes with
-            | Some (_, _, _, h) -> if h <> o then fail "%s: hash_approx is %s, it was %s for the same number before" what o h
-            | None -> hashes := (kc, p, pool.(i).x, o) :: !hashes);
+           check_hash (what ^ " on " ^ before.(i).tok) (int_of_string prec) pool.(i).x o;
            predict := None
          | ["mi"; _] ->
            let i = slot 1 in let o = next () in
